@@ -309,6 +309,32 @@ def c04_case(draw, tier):
     return {"problem": pc, "config": cfg, "op": op}
 
 
+def check_c04_call(case):
+    """One filtering call on an in-contract box must return within the per-call line budget (Hall-interval pointer chasing)."""
+    from vlib import interpose
+
+    tags = ["call:" + case["type"], "n:%d" % min(len(case["box"]), 12)]
+    nt = len(case["box"]) >= 3
+    try:
+        interpose.with_alarm(10, engine, nx.compute_domains, case["type"], case["box"], case["params"])
+        return Verdict(True, "", nt, tags)
+    except EngineError as e:
+        return Verdict(True, "", False, tags + ["aborted:" + e.bucket])
+    except interpose.HangSuspect:
+        pass
+    try:
+        interpose.with_alarm(300, interpose.with_line_budget, engine, nx.compute_domains, case["type"], case["box"], case["params"])
+    except BudgetExceeded as e:
+        return Verdict(False, "%s%s on %s does not return: %s" % (case["type"], case["params"], case["box"], e), True, tags)
+    except EngineError as e:
+        if isinstance(e.exc, BudgetExceeded):
+            return Verdict(False, "%s%s on %s does not return: %s" % (case["type"], case["params"], case["box"], e.exc), True, tags)
+        return Verdict(True, "", False, tags + ["aborted:" + e.bucket])
+    except interpose.HangSuspect:
+        return Verdict(True, "", False, tags + ["inconclusive:slow"])
+    return Verdict(True, "", False, tags + ["inconclusive:slow-once"])
+
+
 CHECKS = {"C01": check_c01, "C02": check_c02, "C03": check_c03, "C04": check_c04}
 STRATS = {"C01": c01_case, "C02": c02_case, "C03": c03_case, "C04": c04_case}
 EXAMPLES = {
@@ -328,13 +354,15 @@ RULES = {
     "C03": "cases = generated problem x objective variable (drawn from: any, in some scope, in no scope) x direction x configuration (x split/schedule for the distributed variant); "
     "non-trivial = the problem is infeasible or its solutions take >= 2 distinct objective values; distinct by SHA-1 of the canonical case",
     "C04": "cases = generated problem (weights on permutation/circuit models with duplicated sub-cycle constraints, repeated shared domains, duplicated constraints, tied cost tables) x configuration x operation "
-    "(first solution, full enumeration, optimisation); oracle = deterministic progress budgets: <= (S+1)*P+P propagator executions per pass, <= #points branching decisions per search, "
+    "(first solution, full enumeration, optimisation), plus single filtering calls on boxes that stress the Hall-interval pointer structures; oracle = deterministic progress budgets: <= (S+1)*P+P propagator executions per pass, <= #points branching decisions per search, "
     "line budget per propagator call when the wall-clock trigger fires; non-trivial = pass with >= 2 propagators re-executed, or a search with >= 1 backtrack",
 }
 
 
 def jobs(prop, tier):
-    js = [{"name": "hyp-I", "mode": "I", "shards": 16}]
+    js = [{"name": "hyp-I", "mode": "I", "shards": 16 if prop != "C04" else 13}]
+    if prop == "C04":
+        js.append({"name": "calls-I", "mode": "I", "shards": 3, "case_timeout": 400})
     if EXAMPLES[prop][tier][1] > 0:
         js.append({"name": "hyp-J", "mode": "J", "shards": 8, "timeout": 1500})
     return js
@@ -344,6 +372,11 @@ def run(prop, job, shard, nshards, seed, tier):
     from vlib.run import Recorder, drive, shard_seed
 
     rec = Recorder()
+    if job["name"] == "calls-I":
+        from vlib.props.c16 import heavy_box
+
+        drive(heavy_box(tier), check_c04_call, rec, shard_seed(seed, shard, 9), 4000 if tier == "quick" else 40000, shrink_budget_s=60)
+        return rec.result()
     n_i, n_j = EXAMPLES[prop][tier]
     n = n_i if job["mode"] == "I" else n_j
     drive(STRATS[prop](tier), CHECKS[prop], rec, shard_seed(seed, shard, 1 if job["mode"] == "I" else 2), n, shrink_budget_s=90)
@@ -351,4 +384,6 @@ def run(prop, job, shard, nshards, seed, tier):
 
 
 def replay(prop, case):
+    if prop == "C04" and "type" in case:
+        return check_c04_call(case)
     return CHECKS[prop](case)
